@@ -402,7 +402,7 @@ def _corpus_families(big):
         out.append({"factors": [wc2, sz2, loud], "block": {"k": "cross", "design": [0, 1, 2], "crossing": [0, 1], "rcc": False,
                     "cs": [{"k": "Exclude", "f": 2, "l": 0}] + extra}})
     # an implied (uncrossed, unconstrained) derived factor whose window covers two factors and two trials, with a
-    # table that tells the positions apart (a[-1] == b[0])
+    # table that tells the positions apart (is a[0], the current level of the first factor, its first level?)
     ca, cb = _sf(0, ["r", "g"]), _sf(1, ["r", "g"])
     for kind, width in (("transition", 2), ("window", 2), ("window", 3)):
         size = 3 ** (2 * width)
@@ -412,7 +412,7 @@ def _corpus_families(big):
                 ds.append(i % 3)
                 i //= 3
             return list(reversed(ds))          # a[1-width..0], b[1-width..0]
-        tblx = [1 if (lambda d: d[0] != 0 and d[0] == d[2 * width - 1])(key_digits(i)) else 0 for i in range(size)]
+        tblx = [1 if key_digits(i)[width - 1] == 1 else 0 for i in range(size)]
         wf2 = {"id": 2, "name": "f2", "window": {"deps": [0, 1], "width": width, "stride": 1, "start": None, "kind": kind},
                "levels": [{"name": "hit", "w": 1, "table": tblx}, {"name": "miss", "w": 1, "table": [1 - x for x in tblx]}]}
         out.append({"factors": [ca, cb, wf2], "block": {"k": "cross", "design": [0, 1, 2], "crossing": [0, 1], "rcc": True, "cs": []}})
